@@ -171,12 +171,16 @@ fn main() {
         jobs.push((a(&["check", "--", v]), None));
     }
     // template functions x argument pool
-    let fun_args = ["value=bumped_branch", "value=1", "value=\"é€\"", "value=custom", "value=dirty", "length=0", "length=1", "length=21", "length=-1", "length=\"x\"", "length=18446744073709551615", "format=\"%Q\"", "format=\"%\"", "format=\"\"", "prefix=1", "prefix=\"\"", "preset=\"bogus\"", "separator=\"\"", "separator=\"ab\"", "max_length=0", "max_length=-1", "lowercase=1", "allow_leading_zero=\"x\"", "value=18446744073709551615", "value=-1", "value=1.5"];
+    let fun_args = ["value=bumped_branch", "value=1", "value=\"é€\"", "value=custom", "value=dirty", "length=0", "length=1", "length=21", "length=-1", "length=\"x\"", "length=18446744073709551615", "length=65535", "length=65536", "length=4294967296", "allow_leading_zero=true", "allow_leading_zero=false", "format=\"%Q\"", "format=\"%\"", "format=\"\"", "prefix=1", "prefix=\"\"", "preset=\"bogus\"", "separator=\"\"", "separator=\"ab\"", "max_length=0", "max_length=-1", "lowercase=1", "allow_leading_zero=\"x\"", "value=18446744073709551615", "value=-1", "value=1.5"];
     for fun in ["sanitize", "hash", "hash_int", "prefix", "prefix_if", "format_timestamp", "bogus_function"] {
         jobs.push((a(&["version", "--source", "stdin", "--output-template", &format!("{{{{ {fun}() }}}}")]), Some(valid_doc.clone())));
         for x in fun_args { 
             jobs.push((a(&["version", "--source", "stdin", "--output-template", &format!("{{{{ {fun}({x}) }}}}")]), Some(valid_doc.clone())));
-            for y in fun_args { if x < y { jobs.push((a(&["version", "--source", "stdin", "--output-template", &format!("{{{{ {fun}({x}, {y}) }}}}")]), Some(valid_doc.clone()))); } }
+            for y in fun_args { if x < y {
+                jobs.push((a(&["version", "--source", "stdin", "--output-template", &format!("{{{{ {fun}({x}, {y}) }}}}")]), Some(valid_doc.clone())));
+                // and with a value present, so that the pair of other arguments is actually reached
+                if !x.starts_with("value=") && !y.starts_with("value=") { for val in ["value=bumped_branch", "value=1700000000"] { jobs.push((a(&["version", "--source", "stdin", "--output-template", &format!("{{{{ {fun}({val}, {x}, {y}) }}}}")]), Some(valid_doc.clone()))); } }
+            } }
         }
     }
     let s_a = jobs.par_iter().map(|(args, stdin)| { let mut st = Stats::default(); inproc(&ctx, args, stdin.as_deref(), &mut st); st }).reduce(Stats::default, Stats::merge);
@@ -330,7 +334,7 @@ fn main() {
     cov.transitions = cov.evaluations;
     cov.traces_validated = cov.evaluations;
     cov.distinct_nontrivial = all.get("zerv_error") + all.get("usage_error") + all.get("process_failed") + all.get("fault_plans");
-    cov.rule = format!("(a) flags read from Cli::command() at run time; for version and flow in 4 source contexts every single flag x a {}-value adversarial pool, every pair of flags x a {}-value pool, malformed stdin documents; 133 custom precedence orders (every single, every ordered pair, every all-but-one, reversed) on stdin and via --schema-ron x every bump/override flag x a 5-value pool; render/check on {} nasty version strings x formats x templates; every template function x argument pool singles and pairs: {} in-process runs under catch_unwind; (b) a strided slice of those through the real binary plain, with -v and under RUST_LOG=trace / a malformed RUST_LOG / ZERV_FORCE_RUST_LOG_OFF (stdout and status identical, exit/stream protocol), help/version/llm-help; (c) git faults: for each of 6 repository scenarios x [version, flow] the shim records the N git calls of a fault-free run, then every k<=N x 17 fault modes (6 failure modes: exit 1, exit 128, garbage, empty, SIGKILL, silent exit 1; 11 hostile-content modes with status 0: negative / 20-digit / i64::MAX / 2^32 / zero numbers, blank, two hash lines, non-UTF-8 tag names, a 200 KB line, a tag list, stderr noise) (deviation 1){}, plus git missing / -C to a missing path / file / non-repository; (d) through the binary only: 21 recursive input shapes (template parentheses / if / for / + / and / function / filter / ~ / array / path / not nesting or chains, custom JSON, --schema-ron, --branch-rules, stdin documents, long SemVer / PEP 440 strings) at sizes 8, 64, 512, 4096 (thorough also 16384, 60000) and stdin byte contents (invalid UTF-8, NUL, BOM, CRLF, Latin-1): zerv must terminate without abort; (e) 49 repositories whose branch name is 40-240 bytes of 1/2/3/4-byte characters at every alignment (half of them with 40 long non-ASCII tags on the tagged commit) x version/flow x plain / -v / RUST_LOG=trace / --verbose+RUST_LOG=debug. non-trivial = runs that end in an error path plus fault plans", pool.len(), spool.len(), versions.len(), jobs.len(), if quick { "" } else { " and every pair of fault points in 2 modes (deviation 2)" });
+    cov.rule = format!("(a) flags read from Cli::command() at run time; for version and flow in 4 source contexts every single flag x a {}-value adversarial pool, every pair of flags x a {}-value pool, malformed stdin documents; 133 custom precedence orders (every single, every ordered pair, every all-but-one, reversed) on stdin and via --schema-ron x every bump/override flag x a 5-value pool; render/check on {} nasty version strings x formats x templates; every template function x argument pool singles, pairs and (value, pair) triples: {} in-process runs under catch_unwind; (b) a strided slice of those through the real binary plain, with -v and under RUST_LOG=trace / a malformed RUST_LOG / ZERV_FORCE_RUST_LOG_OFF (stdout and status identical, exit/stream protocol), help/version/llm-help; (c) git faults: for each of 6 repository scenarios x [version, flow] the shim records the N git calls of a fault-free run, then every k<=N x 17 fault modes (6 failure modes: exit 1, exit 128, garbage, empty, SIGKILL, silent exit 1; 11 hostile-content modes with status 0: negative / 20-digit / i64::MAX / 2^32 / zero numbers, blank, two hash lines, non-UTF-8 tag names, a 200 KB line, a tag list, stderr noise) (deviation 1){}, plus git missing / -C to a missing path / file / non-repository; (d) through the binary only: 21 recursive input shapes (template parentheses / if / for / + / and / function / filter / ~ / array / path / not nesting or chains, custom JSON, --schema-ron, --branch-rules, stdin documents, long SemVer / PEP 440 strings) at sizes 8, 64, 512, 4096 (thorough also 16384, 60000) and stdin byte contents (invalid UTF-8, NUL, BOM, CRLF, Latin-1): zerv must terminate without abort; (e) 49 repositories whose branch name is 40-240 bytes of 1/2/3/4-byte characters at every alignment (half of them with 40 long non-ASCII tags on the tagged commit) x version/flow x plain / -v / RUST_LOG=trace / --verbose+RUST_LOG=debug. non-trivial = runs that end in an error path plus fault plans", pool.len(), spool.len(), versions.len(), jobs.len(), if quick { "" } else { " and every pair of fault points in 2 modes (deviation 2)" });
     cov.exhaustive = true;
     cov.samples = vec![json!(jobs[jobs.len() / 2].0), json!(jobs[17].0), json!({"scenario":"ahead+dirty","command":"flow","fault_at":7,"mode":"garbage"})];
     cov.set("clause_counts", all.to_json());
